@@ -447,6 +447,21 @@ def _spec_diff(a, b, exact):
     return None
 
 
+def _only_missing(ref, got, exact):
+    rs, gs = ref.spectra, got.spectra
+    if isinstance(gs, np.ndarray) or len(rs) != len(gs):
+        return False
+    for rr, gr in zip(rs, gs):
+        if len(rr) != len(gr):
+            return False
+        for a, b in zip(rr, gr):
+            if b is None:
+                continue
+            if a is None or _spec_diff(a, b, exact):
+                return False
+    return True
+
+
 def judge(cfg, out, cache, ref):
     """Oracles 1-3.  Returns None or (violation class, message)."""
     exact = not cfg['model']['kind'].startswith('real:')
@@ -463,7 +478,9 @@ def judge(cfg, out, cache, ref):
             return ('deadlock', '; '.join(out['report']))
         if out['workers_alive_at_end'] > 0 and cfg['mode'] != 'f5':
             return ('deadlock-under-fault', '; '.join(out['report']))
-        return None if cfg['mode'] == 'f5' else ('deadlock-under-fault', '; '.join(out['report']))
+        # every worker is gone: the real parent would block for ever on the bounded queue; with a single injected death
+        # this cannot happen unless the code under test lost the other workers itself
+        return None if (cfg['mode'] == 'f5' and cfg.get('cpus') == 1) else ('deadlock-under-fault', '; '.join(out['report']))
     if out['outcome'] == 'raised':
         if not faulty:
             return ('unexpected-exception', '%s: %s' % (out['exc_type'], out.get('exc_msg')))
@@ -471,6 +488,16 @@ def judge(cfg, out, cache, ref):
     d = compare_caches(cfg, ref, cache, exact)
     if d is None:
         return None
+    if cfg['mode'] == 'f5':
+        # a worker that died without reporting (killed, or its exception could not be pickled): the constructor may raise, or
+        # -- for a split job, which stays a nested list -- return with exactly the lost entries missing, which Cache2D.merge
+        # then reports as incomplete (merge completeness is enumerated separately); anything else absorbs the failure
+        if faulty and cfg['split_jobs'] > 1 and not isinstance(cache.spectra, np.ndarray) and _only_missing(ref, cache, exact):
+            return None
+        if faulty:
+            return ('dead-worker-absorbed', 'constructor returned normally after a worker died without reporting (%s); %s'
+                    % (','.join(f['kind'] for f in out['fired']), d))
+        return ('schedule-dependence', d)
     if faulty:
         return ('fault-absorbed', 'constructor returned normally after %s; %s' % (
             ','.join('%s(%s)@job%s' % (f['kind'], f.get('exc'), f['job']) for f in out['fired']), d))
@@ -602,11 +629,14 @@ def conflicting_copy(cache, pos):
         return None
     i, j = owned[pos % len(owned)]
     fs = c.spectra[i][j]
-    um = np.argwhere(~np.ma.getmaskarray(fs))
+    m = np.array(np.ma.getmaskarray(fs), copy=True)
+    m.flat[0] = m.flat[-1] = True         # the corners are masked in every Spectrum: a difference there is no conflict
+    um = np.argwhere(~m)
     if len(um) == 0:
         return None
     e = tuple(um[(pos * 7) % len(um)])
-    fs.data[e] = fs.data[e] * 1.5 + 1.0
+    d = np.ma.getdata(fs)
+    d[e] = d[e] * 1.5 + 1.0
     return c
 
 
@@ -732,10 +762,10 @@ def gen_quad_case(s, real_frac=0.0):
          'gpos': gpos, 'gpos_missing': 3.21, 'ppos': s.uniform(0.01, 0.6), 'ppos2': s.uniform(0.01, 0.39),
          'rho': s.uniform(0, 1), 'p2d': s.uniform(0.05, 0.95),
          'vourlaki': [s.uniform(0.5, 3.0), None, s.uniform(0, 1), gpos, s.uniform(0, 1), s.uniform(0, 1)],
-         'mix_ok': mix_ok, 'uncached_gpos': s.choice([1.21, 2.7])}
+         'mix_ok': mix_ok, 'uncached_gpos': s.choice([1.21, 2.7]), 'two_pdf_params': [s.uniform(0.6, 3.0), s.uniform(0.6, 3.0)]}
     q['vourlaki'][1] = mean / q['vourlaki'][0]
     # which clauses to evaluate (2-D exterior integrals are slow: a subset per case)
-    q['clauses'] = sorted(s.sample(['int1', 'int1_noext', 'pp1', 'pp1_uncached', 'int2', 'int2_noext', 'pp2', 'spp2',
+    q['clauses'] = sorted(s.sample(['int1', 'int1_noext', 'two_pdfs', 'pp1', 'pp1_uncached', 'int2', 'int2_noext', 'pp2', 'spp2',
                                     'mix', 'mix_spp', 'mix_pp', 'vourlaki', 'index_errors', 'pdfs'], s.randint(4, 7)))
     return {'c1': c1, 'c2': c2, 'q': q}
 
@@ -801,6 +831,16 @@ def quad_case(case, stream):
                     probes['quad_vs_closed_1d'] = info['quad_vs_closed']
                     if c1['model']['kind'] == 'stub_const':
                         probes['W_minus_1_1d'] = info['w_in'] + info['w_neu'] + info['w_del'] - 1.0
+            elif cl == 'two_pdfs':
+                # one cache, several distributions at the same parameter vector, in both orders (nothing about an earlier
+                # integrate() may leak into the next one)
+                pv = [s2p for s2p in q['two_pdf_params']]
+                for order in (('gamma', 'lognormal', 'beta'), ('lognormal', 'beta', 'gamma')):
+                    for nm in order:
+                        for ext in (True, False):
+                            ref, tol, info = Q.ref1d(s1, pv, nm, theta, ext)
+                            got = call(s1.integrate, list(pv), None, getattr(PDFs, nm), theta, None, exterior_int=ext)
+                            chk('two_pdfs', got, ref, tol, 'pdf=%s%r after other pdfs at the same parameters' % (nm, pv))
             elif cl == 'pp1':
                 for npos in (1, 2):
                     adds = [a for a in c1['additional_gammas']]
@@ -909,3 +949,58 @@ def quad_case(case, stream):
                     if isinstance(a0, BaseException) or not np.allclose(a0, b0, rtol=1e-9, atol=1e-300):
                         viol.append(('quadrature:pdfs', 'compiled %s scalar call differs' % name))
     return viol, probes
+
+
+def merge_mixed_case(partsA, partsB, whole, pick, order_stream, conflict=None):
+    """pieces from two different split settings (distinct job ids, overlapping entries).  pick: list of (which, j) pieces to hand to
+    merge; conflict=(index into pick, pos): that piece is replaced by a copy with one entry changed.  Completeness is judged on
+    coverage of entries; a conflict counts only if the changed entry is also covered by another picked piece."""
+    from dadi.DFE import Cache2D
+    n = len(whole.gammas)
+    pieces = []
+    for idx, (w, j) in enumerate(pick):
+        c = (partsA if w == 'A' else partsB)[j]
+        tag = 'o'
+        if conflict is not None and conflict[0] == idx:
+            cc = conflicting_copy(c, conflict[1])
+            if cc is None:
+                return None
+            c, tag = cc, 'c'
+        pieces.append((tag, w, j, c))
+    if not pieces:
+        return None
+    order_stream.shuffle(pieces)
+    cover = {}
+    for tag, w, j, c in pieces:
+        for i, row in enumerate(c.spectra):
+            for jj, fs in enumerate(row):
+                if fs is not None:
+                    cover.setdefault((i, jj), []).append(fs)
+    complete = len(cover) == n * n
+    def differ(a, b):
+        ok = ~(np.ma.getmaskarray(a) | np.ma.getmaskarray(b))
+        ok.flat[0] = ok.flat[-1] = False
+        return not np.array_equal(np.ma.getdata(a)[ok], np.ma.getdata(b)[ok])
+    conflicting = any(any(differ(a, lst[0]) for a in lst[1:]) for lst in cover.values())
+    desc = 'mixed split settings: pieces=%s' % ([(t, w, j) for t, w, j, _ in pieces],)
+    try:
+        with warnings.catch_warnings():
+            warnings.simplefilter('ignore')
+            m = Cache2D.merge([c for _, _, _, c in pieces])
+    except Exception as e:
+        if complete and not conflicting:
+            return ('merge-rejects-complete', '%s raised %s: %s' % (desc, type(e).__name__, e))
+        return None
+    if not complete:
+        return ('merge-absorbs-missing-job', desc + ' returned normally')
+    if conflicting:
+        return ('merge-absorbs-conflict', desc + ' returned normally')
+    # expected content: what the pieces themselves hold (a changed entry nothing else covers is simply that piece's value)
+    if not isinstance(m.spectra, np.ndarray) or m.spectra.shape != whole.spectra.shape:
+        return ('merge-differs-from-unsplit', desc + ': result is not a complete array')
+    for (i, jj), lst in cover.items():
+        ok = np.ones(whole.spectra[i, jj].shape, dtype=bool)
+        ok.flat[0] = ok.flat[-1] = False
+        if not np.array_equal(m.spectra[i, jj][ok], np.ma.getdata(lst[0])[ok]):
+            return ('merge-differs-from-unsplit', desc + ': entry (%d,%d) is not what the pieces hold' % (i, jj))
+    return None
